@@ -17,7 +17,8 @@ theorem count_cons_ne {s s' : Nat} (rem : List Nat) (h : s' ≠ s) : (s :: rem).
 /-- what both outcomes of a delivery step (publication finished / more listeners to serve) have in common -/
 theorem deliver_core {ord : Bool} {c : Cfg M} (h : Inv ord c) {k : Nat} {p : Pub M} {post : List (Pub M)}
     {s : Nat} {rem : List Nat} (hsplit : c.pubs = c.pubs.take k ++ p :: post) (hstage : p.stage = some (s :: rem))
-    (hpre : ord = true → (c.subs s).live = true → List.flatMap (copies s) (c.pubs.take k) = [])
+    (hpre : ord = true → (c.subs s).live = true →
+      ∀ a, a ∈ List.flatMap (copies s) (c.pubs.take k) → a.id ≠ p.ev.id)
     (hen : (c.subs s).cancelled = false → (c.subs s).lossy = false → (c.subs s).pending = [])
     (subs' : Nat → Sub M)
     (hsubs : subs' = if (c.subs s).cancelled then c.subs else setAt c.subs s ((c.subs s).accept p.ev))
@@ -28,6 +29,11 @@ theorem deliver_core {ord : Bool} {c : Cfg M} (h : Inv ord c) {k : Nat} {p : Pub
         = c.store) ∧
     (ord = true → ∀ s', (subs' s').live = true → (subs' s').lossy = true →
       chainOK (subs' s').rawView ((subs' s').pending ++ List.flatMap (copies s') (c.pubs.take k ++ (tl ++ post)))) ∧
+    (ord = true → ∀ s', (subs' s').live = true →
+      linkOK (subs' s').lossy (subs' s').rawView
+        ((subs' s').pending ++ List.flatMap (copies s') (c.pubs.take k ++ (tl ++ post)))) ∧
+    (ord = true → ∀ s', (subs' s').live = true →
+      (subs' s').obsView = seedView (subs' s').incl (subs' s').mask (subs' s').rawView) ∧
     (∀ s', (subs' s').live = (c.subs s').live ∧ (subs' s').registered = (c.subs s').registered ∧
            (subs' s').cancelled = (c.subs s').cancelled) ∧
     (∀ q, q ∈ c.pubs.take k ++ (tl ++ post) → ∀ r, q.stage = some r → ∀ s', (subs' s').registered = false →
@@ -75,7 +81,7 @@ theorem deliver_core {ord : Bool} {c : Cfg M} (h : Inv ord c) {k : Nat} {p : Pub
   have hinfl_self' : List.flatMap (copies s) (c.pubs.take k ++ (tl ++ post)) =
       List.flatMap (copies s) (c.pubs.take k) ++ (List.replicate (rem.count s) p.ev ++ List.flatMap (copies s) post) := by
     simp only [List.flatMap_append, htl]
-  refine ⟨?_, ?_, hflags, ?_, ?_, ?_⟩
+  refine ⟨?_, ?_, ?_, ?_, hflags, ?_, ?_, ?_⟩
   · -- view
     intro hord s' hs'
     have hl : (c.subs s').live = true := by rw [← (hflags s').1]; exact hs'
@@ -83,9 +89,10 @@ theorem deliver_core {ord : Bool} {c : Cfg M} (h : Inv ord c) {k : Nat} {p : Pub
     · subst hss
       have hnc : (c.subs s').cancelled = false := (live_registered hl).2
       have e1 : subs' s' = (c.subs s').accept p.ev := hself hnc
+      have hmove := hpre hord hl
       have hv := h.view hord s' hl
-      rw [hinfl_self, hpre hord hl] at hv
-      rw [e1, hinfl_self', hpre hord hl]
+      rw [hinfl_self] at hv
+      rw [e1, hinfl_self']
       have hcan : (c.subs s').lossy = true → cancels (c.subs s').pending p.ev = true →
           (c.subs s').rawView p.ev.id = none := by
         intro hlossy hcc
@@ -101,8 +108,10 @@ theorem deliver_core {ord : Bool} {c : Cfg M} (h : Inv ord c) {k : Nat} {p : Pub
         · simp only [if_true]
           rw [foldl_mergeInto _ _ (h.uniq s') _ (hcan hlossy)]
           simp [List.foldl_append]
-      simp only [List.nil_append, List.foldl_append, List.foldl_cons] at hv ⊢
-      rw [key]
+      generalize List.flatMap (copies s') (c.pubs.take k) = A at hv hmove ⊢
+      generalize List.replicate (rem.count s') p.ev ++ List.flatMap (copies s') post = R at hv ⊢
+      rw [List.foldl_append, foldl_move A R p.ev hmove, List.foldl_cons] at hv
+      rw [List.foldl_append, key]
       exact hv
     · rw [hother s' hss, hinfl_other s' hss]
       exact h.view hord s' hl
@@ -114,28 +123,89 @@ theorem deliver_core {ord : Bool} {c : Cfg M} (h : Inv ord c) {k : Nat} {p : Pub
       have hnc : (c.subs s').cancelled = false := (live_registered hl).2
       have e1 : subs' s' = (c.subs s').accept p.ev := hself hnc
       have hlossy : (c.subs s').lossy = true := by rw [e1] at hlossy'; exact hlossy'
+      have hmove := hpre hord hl
       have hch := h.chain hord s' hl hlossy
-      rw [hinfl_self, hpre hord hl] at hch
-      rw [e1, hinfl_self', hpre hord hl]
+      rw [hinfl_self] at hch
+      rw [e1, hinfl_self']
       have hrv : ((c.subs s').accept p.ev).rawView = (c.subs s').rawView := rfl
       have hpend : ((c.subs s').accept p.ev).pending = mergeInto (c.subs s').pending p.ev := by
         simp [Sub.accept, hlossy]
       rw [hrv, hpend]
-      simp only [List.nil_append] at hch ⊢
-      -- pending ++ e :: X  ~>  mergeInto pending e ++ X
-      have hsplit2 : (c.subs s').pending ++ p.ev :: (List.replicate (rem.count s') p.ev ++ List.flatMap (copies s') post)
-          = ((c.subs s').pending ++ [p.ev]) ++ (List.replicate (rem.count s') p.ev ++ List.flatMap (copies s') post) := by
-        simp
-      rw [hsplit2, chainOK_append] at hch
+      generalize List.flatMap (copies s') (c.pubs.take k) = A at hch hmove ⊢
+      generalize List.replicate (rem.count s') p.ev ++ List.flatMap (copies s') post = R at hch ⊢
+      rw [chainOK_append] at hch
+      have h2 := chainOK_move A R p.ev hmove _ hch.2
+      simp only [chainOK] at h2
+      have hPe : chainOK (c.subs s').rawView ((c.subs s').pending ++ [p.ev]) := by
+        rw [chainOK_append]
+        refine ⟨hch.1, ?_⟩
+        simp only [chainOK, and_true]
+        exact h2.1
       rw [chainOK_append]
-      refine ⟨chainOK_mergeInto _ _ (h.uniq s') _ hch.1, ?_⟩
+      refine ⟨chainOK_mergeInto _ _ (h.uniq s') _ hPe, ?_⟩
       have hcan : cancels (c.subs s').pending p.ev = true → (c.subs s').rawView p.ev.id = none :=
-        cancels_safe _ _ _ ((chainOK_append _ _ _).mp hch.1).1
+        cancels_safe _ _ _ hch.1
       rw [foldl_mergeInto _ _ (h.uniq s') _ hcan]
-      exact hch.2
+      simp only [List.foldl_append, List.foldl_cons, List.foldl_nil]
+      exact h2.2
     · rw [hother s' hss] at hlossy' ⊢
       rw [hinfl_other s' hss]
       exact h.chain hord s' hl hlossy'
+  · -- link
+    intro hord s' hs'
+    have hl : (c.subs s').live = true := by rw [← (hflags s').1]; exact hs'
+    by_cases hss : s' = s
+    · subst hss
+      have hnc : (c.subs s').cancelled = false := (live_registered hl).2
+      have e1 : subs' s' = (c.subs s').accept p.ev := hself hnc
+      have hmove := hpre hord hl
+      have hlk := h.link hord s' hl
+      rw [hinfl_self] at hlk
+      rw [e1, hinfl_self']
+      have hrv : ((c.subs s').accept p.ev).rawView = (c.subs s').rawView := rfl
+      have hlo : ((c.subs s').accept p.ev).lossy = (c.subs s').lossy := rfl
+      rw [hrv, hlo]
+      cases hlossy : (c.subs s').lossy
+      · have hpend : ((c.subs s').accept p.ev).pending = [p.ev] := by simp [Sub.accept, hlossy]
+        rw [hpend]
+        rw [hlossy, hen hnc hlossy] at hlk
+        generalize List.flatMap (copies s') (c.pubs.take k) = A at hlk hmove ⊢
+        generalize List.replicate (rem.count s') p.ev ++ List.flatMap (copies s') post = R at hlk ⊢
+        simp only [List.nil_append] at hlk
+        exact linkOK_move false A R p.ev hmove _ hlk
+      · have hpend : ((c.subs s').accept p.ev).pending = mergeInto (c.subs s').pending p.ev := by
+          simp [Sub.accept, hlossy]
+        rw [hpend]
+        rw [hlossy] at hlk
+        have hch := h.chain hord s' hl hlossy
+        generalize List.flatMap (copies s') (c.pubs.take k) = A at hlk hmove ⊢
+        generalize List.replicate (rem.count s') p.ev ++ List.flatMap (copies s') post = R at hlk ⊢
+        rw [linkOK_append] at hlk
+        have h2 := linkOK_move true A R p.ev hmove _ hlk.2
+        simp only [linkOK] at h2
+        have hPe : linkOK true (c.subs s').rawView ((c.subs s').pending ++ [p.ev]) := by
+          rw [linkOK_append]
+          refine ⟨hlk.1, ?_⟩
+          simp only [linkOK, and_true]
+          exact h2.1
+        rw [linkOK_append]
+        refine ⟨linkOK_mergeInto _ _ (h.uniq s') _ hPe, ?_⟩
+        have hcan : cancels (c.subs s').pending p.ev = true → (c.subs s').rawView p.ev.id = none :=
+          cancels_safe _ _ _ ((chainOK_append _ _ _).mp hch).1
+        rw [foldl_mergeInto _ _ (h.uniq s') _ hcan]
+        simp only [List.foldl_append, List.foldl_cons, List.foldl_nil]
+        exact h2.2
+    · rw [hother s' hss, hinfl_other s' hss]
+      exact h.link hord s' hl
+  · -- observed view
+    intro hord s' hs'
+    have hl : (c.subs s').live = true := by rw [← (hflags s').1]; exact hs'
+    by_cases hss : s' = s
+    · subst hss
+      rw [hself (live_registered hl).2]
+      exact h.obs hord s' hl
+    · rw [hother s' hss]
+      exact h.obs hord s' hl
   · -- listener copies never name an unregistered subscriber
     intro q hq r hr s' hs'
     have hreg : (c.subs s').registered = false := by rw [← (hflags s').2.1]; exact hs'
@@ -200,11 +270,15 @@ theorem Inv.stepDeliver {ord : Bool} {c : Cfg M} (h : Inv ord c) (k : Nat)
       · next hen =>
         -- what `okStep` says, in usable form
         have hokk : ord = true → (c.subs s).live = true →
-            List.flatMap (copies s) (c.pubs.take k) = [] := by
-          intro hord hl
+            ∀ a, a ∈ List.flatMap (copies s) (c.pubs.take k) → a.id ≠ p.ev.id := by
+          intro hord hl a ha
           have := hok hord
           simp only [okStep, hdrop, hstage, hl, Bool.not_true, Bool.false_or] at this
-          exact flatMap_copies_nil this
+          rw [List.mem_flatMap] at ha
+          obtain ⟨q, hq, haq⟩ := ha
+          have h1 := List.all_eq_true.mp this q hq
+          have h2 := List.all_eq_true.mp h1 a haq
+          simpa using h2
         have hen' : (c.subs s).cancelled = false → (c.subs s).lossy = false → (c.subs s).pending = [] := by
           intro h1 h2
           cases hp : (c.subs s).pending with
@@ -216,15 +290,19 @@ theorem Inv.stepDeliver {ord : Bool} {c : Cfg M} (h : Inv ord c) (k : Nat)
         · next hemp =>
           -- the publication is over (and `collect` runs if a dead listener was met)
           have hremnil : rem = [] := List.isEmpty_iff.mp hemp
-          obtain ⟨hv, hch, hfl, hrm, hun, hnm⟩ := deliver_core h hsplit hstage
+          obtain ⟨hv, hch, hlk, hob, hfl, hrm, hun, hnm⟩ := deliver_core h hsplit hstage
             hokk hen' subs'' hsd.symm []
             (by intro s''; simp [hremnil]) (by intro q hq; simp at hq)
-          simp only [List.nil_append] at hv hch hrm hnm
-          refine ⟨?_, ?_, ?_, ?_, ?_, ?_, ?_⟩
+          simp only [List.nil_append] at hv hch hlk hrm hnm
+          refine ⟨?_, ?_, ?_, ?_, ?_, ?_, ?_, ?_, ?_⟩
           · intro hord s' hs'
             exact hv hord s' hs'
           · intro hord s' hs' hl'
             exact hch hord s' hs' hl'
+          · intro hord s' hs'
+            exact hlk hord s' hs'
+          · intro hord s' hs'
+            exact hob hord s' hs'
           · intro s' hs'
             have hs2 : (subs'' s').live = true := hs'
             have hl : (c.subs s').live = true := by rw [← (hfl s').1]; exact hs2
@@ -252,7 +330,7 @@ theorem Inv.stepDeliver {ord : Bool} {c : Cfg M} (h : Inv ord c) (k : Nat)
           · intro s' hs' k' hk1 hk2
             exact hnm s' hs' k' hk1 hk2
         · next hne =>
-          obtain ⟨hv, hch, hfl, hrm, hun, hnm⟩ := deliver_core h hsplit hstage
+          obtain ⟨hv, hch, hlk, hob, hfl, hrm, hun, hnm⟩ := deliver_core h hsplit hstage
             hokk hen' subs'' hsd.symm
             [{ ({ p with gc := p.gc || (c.subs s).cancelled } : Pub M) with stage := some rem }]
             (by
@@ -265,12 +343,16 @@ theorem Inv.stepDeliver {ord : Bool} {c : Cfg M} (h : Inv ord c) (k : Nat)
               subst hq
               simp at hr
               exact hr.symm)
-          simp only [List.singleton_append] at hv hch hrm hnm
-          refine ⟨?_, ?_, ?_, ?_, ?_, ?_, ?_⟩
+          simp only [List.singleton_append] at hv hch hlk hrm hnm
+          refine ⟨?_, ?_, ?_, ?_, ?_, ?_, ?_, ?_, ?_⟩
           · intro hord s' hs'
             exact hv hord s' hs'
           · intro hord s' hs' hl'
             exact hch hord s' hs' hl'
+          · intro hord s' hs'
+            exact hlk hord s' hs'
+          · intro hord s' hs'
+            exact hob hord s' hs'
           · intro s' hs'
             have hs2 : (subs'' s').live = true := hs'
             have hl : (c.subs s').live = true := by rw [← (hfl s').1]; exact hs2
@@ -299,7 +381,7 @@ theorem Inv.stepSub {ord : Bool} {c : Cfg M} (h : Inv ord c) (s : Nat)
       · rfl
       · simp [hr] at hcond
     have hother : ∀ s', s' ≠ s → ∀ sb, setAt c.subs s sb s' = c.subs s' := fun s' hne sb => setAt_other _ _ hne
-    refine ⟨?_, ?_, ?_, ?_, ?_, ?_, ?_⟩
+    refine ⟨?_, ?_, ?_, ?_, ?_, ?_, ?_, ?_, ?_⟩
     · intro hord s' hs'
       by_cases hss : s' = s
       · subst hss
@@ -358,6 +440,61 @@ theorem Inv.stepSub {ord : Bool} {c : Cfg M} (h : Inv ord c) (s : Nat)
         show chainOK (setAt c.subs s _ s').rawView ((setAt c.subs s _ s').pending ++ List.flatMap (copies s') c.pubs)
         rw [hother s' hss]
         exact h.chain hord s' hs'' hl''
+    · intro hord s' hs'
+      by_cases hss : s' = s
+      · subst hss
+        have hokk := hok hord
+        simp only [okStep] at hokk
+        rw [List.all_eq_true] at hokk
+        show linkOK (setAt c.subs s' _ s').lossy (setAt c.subs s' _ s').rawView
+          ((setAt c.subs s' _ s').pending ++ List.flatMap (copies s') c.pubs)
+        simp only [setAt_same, Sub.rawView, List.foldl_nil, List.nil_append]
+        have hst : linkOK false c.store (List.flatMap (copies s') c.pubs) := by
+          apply linkOK_stable
+          intro e he
+          rw [List.mem_flatMap] at he
+          obtain ⟨p, hp, hep⟩ := he
+          cases hst : p.stage with
+          | none =>
+            rw [copies_none hst] at hep
+            simp at hep
+            subst hep
+            have := hokk p hp
+            simp [hst] at this
+            exact this.2
+          | some rem =>
+            rw [copies_staged hst, h.rem p hp rem hst s' hunreg] at hep
+            simp at hep
+        cases hl : (c.subs s').lossy
+        · exact hst
+        · have hnil : List.flatMap (copies s') c.pubs = [] := by
+            rw [List.flatMap_eq_nil_iff]
+            intro p hp
+            have := hokk p hp
+            cases hst : p.stage with
+            | none => simp [hst, hl] at this
+            | some rem => rw [copies_staged hst, h.rem p hp rem hst s' hunreg]; rfl
+          rw [hnil]
+          trivial
+      · have hs'' : (c.subs s').live = true := by
+          have : (setAt c.subs s _ s').live = true := hs'
+          rwa [hother s' hss] at this
+        show linkOK (setAt c.subs s _ s').lossy (setAt c.subs s _ s').rawView
+          ((setAt c.subs s _ s').pending ++ List.flatMap (copies s') c.pubs)
+        rw [hother s' hss]
+        exact h.link hord s' hs''
+    · intro hord s' hs'
+      show (setAt c.subs s _ s').obsView = seedView (setAt c.subs s _ s').incl (setAt c.subs s _ s').mask
+        (setAt c.subs s _ s').rawView
+      by_cases hss : s' = s
+      · subst hss
+        simp only [setAt_same]
+        rfl
+      · have hs'' : (c.subs s').live = true := by
+          have : (setAt c.subs s _ s').live = true := hs'
+          rwa [hother s' hss] at this
+        rw [hother s' hss]
+        exact h.obs hord s' hs''
     · intro s' hs'
       show (c.listeners ++ [s]).count s' = 1
       by_cases hss : s' = s
@@ -420,7 +557,7 @@ theorem Inv.stepCancel {ord : Bool} {c : Cfg M} (h : Inv ord c) (s : Nat) : Inv 
       intro s' hs' hss
       subst hss
       simp [Sub.live] at hs'
-    refine ⟨?_, ?_, ?_, ?_, ?_, ?_, ?_⟩
+    refine ⟨?_, ?_, ?_, ?_, ?_, ?_, ?_, ?_, ?_⟩
     · intro hord s' hs'
       have hne := hnl s' hs'
       have hs'' : (c.subs s').live = true := by
@@ -440,6 +577,24 @@ theorem Inv.stepCancel {ord : Bool} {c : Cfg M} (h : Inv ord c) (s : Nat) : Inv 
       show chainOK (setAt c.subs s _ s').rawView ((setAt c.subs s _ s').pending ++ inflight c s')
       rw [hother s' hne]
       exact h.chain hord s' hs'' hl''
+    · intro hord s' hs'
+      have hne := hnl s' hs'
+      have hs'' : (c.subs s').live = true := by
+        have : (setAt c.subs s _ s').live = true := hs'
+        rwa [hother s' hne] at this
+      show linkOK (setAt c.subs s _ s').lossy (setAt c.subs s _ s').rawView
+        ((setAt c.subs s _ s').pending ++ inflight c s')
+      rw [hother s' hne]
+      exact h.link hord s' hs''
+    · intro hord s' hs'
+      have hne := hnl s' hs'
+      have hs'' : (c.subs s').live = true := by
+        have : (setAt c.subs s _ s').live = true := hs'
+        rwa [hother s' hne] at this
+      show (setAt c.subs s _ s').obsView = seedView (setAt c.subs s _ s').incl (setAt c.subs s _ s').mask
+        (setAt c.subs s _ s').rawView
+      rw [hother s' hne]
+      exact h.obs hord s' hs''
     · intro s' hs'
       have hne := hnl s' hs'
       have hs'' : (c.subs s').live = true := by
@@ -490,7 +645,7 @@ theorem Inv.stepRecv {ord : Bool} {c : Cfg M} (h : Inv ord c) (s : Nat) : Inv or
       by_cases hss : s' = s
       · subst hss; simp [Sub.live]
       · rw [hother s' hss]
-    refine ⟨?_, ?_, ?_, ?_, ?_, ?_, ?_⟩
+    refine ⟨?_, ?_, ?_, ?_, ?_, ?_, ?_, ?_, ?_⟩
     · intro hord s' hs'
       have hs'' : (c.subs s').live = true := by rw [← hlive s']; exact hs'
       show ((setAt c.subs s _ s').pending ++ inflight c s').foldl applyEv (setAt c.subs s _ s').rawView = c.store
@@ -521,6 +676,35 @@ theorem Inv.stepRecv {ord : Bool} {c : Cfg M} (h : Inv ord c) (s : Nat) : Inv or
           rwa [hother s' hss] at this
         rw [hother s' hss]
         exact h.chain hord s' hs'' hl''
+    · intro hord s' hs'
+      have hs'' : (c.subs s').live = true := by rw [← hlive s']; exact hs'
+      show linkOK (setAt c.subs s _ s').lossy (setAt c.subs s _ s').rawView
+        ((setAt c.subs s _ s').pending ++ inflight c s')
+      by_cases hss : s' = s
+      · subst hss
+        have hc := h.link hord s' hs''
+        rw [hp] at hc
+        simp only [List.cons_append, linkOK] at hc
+        simp only [setAt_same, Sub.rawView, List.foldl_append, List.foldl_cons, List.foldl_nil]
+        exact hc.2
+      · rw [hother s' hss]
+        exact h.link hord s' hs''
+    · intro hord s' hs'
+      have hs'' : (c.subs s').live = true := by rw [← hlive s']; exact hs'
+      show (setAt c.subs s _ s').obsView = seedView (setAt c.subs s _ s').incl (setAt c.subs s _ s').mask
+        (setAt c.subs s _ s').rawView
+      by_cases hss : s' = s
+      · subst hss
+        have hc := h.link hord s' hs''
+        rw [hp] at hc
+        simp only [List.cons_append, linkOK] at hc
+        simp only [setAt_same]
+        apply obsView_snoc (c.subs s') e rest (h.obs hord s' hs'')
+        rcases hc.1 with h1 | h1
+        · exact Or.inl h1
+        · exact Or.inr h1.2
+      · rw [hother s' hss]
+        exact h.obs hord s' hs''
     · intro s' hs'
       exact h.lisLive s' (by rw [← hlive s']; exact hs')
     · intro s' hs'
